@@ -12,7 +12,7 @@ sys.setrecursionlimit(max(sys.getrecursionlimit(), 20000))
 
 ID = 'C16'
 PROFILES = ['debug', 'release']
-THEOREMS = ['C16_accept_within', 'C16_reject_deeper', 'C16_reject_deep_brackets', 'C16_depth_balanced',
+THEOREMS = ['C16_total', 'C16_total_release', 'C16_accept_within', 'C16_reject_deeper', 'C16_reject_deep_brackets', 'C16_depth_balanced',
             'C16_counter_is_budget', 'C16_no_assert']
 RULE = ('all d in 0..64 (+ 100; 250 in the thorough tier) x nesting profiles: random words over {[, <<} of length d-1, d, d+1 (and random trees of '
         'that nesting) spelled with random whitespace/comments, each valid or with a failure injected at a random level '
